@@ -28,6 +28,14 @@ theorem cl32 (c : BitVec 64) (h : (lo32 c).toNat < 32) : (lo8 c).toNat % 32 = (l
 theorem cl32' (x : BitVec 32) (h : x.toNat < 32) : (x.setWidth 8).toNat % 32 = x.toNat := by
   simp only [BitVec.toNat_setWidth] at *; omega
 
+/-- `movl` of a zero-extended, logically shifted 32-bit value keeps it -/
+@[simp] theorem lo32_ushiftRight (x : BitVec 32) (k : Nat) : lo32 (x.setWidth 64 >>> k) = x >>> k := by
+  apply BitVec.eq_of_toNat_eq
+  have := x.isLt
+  have h2 : x.toNat >>> k ≤ x.toNat := by rw [Nat.shiftRight_eq_div_pow]; exact Nat.div_le_self _ _
+  simp only [lo32, BitVec.toNat_ushiftRight, BitVec.toNat_setWidth]
+  rw [Nat.mod_eq_of_lt (by omega : x.toNat < 2 ^ 64), Nat.mod_eq_of_lt (by omega : x.toNat >>> k < 2 ^ 32)]
+
 @[simp] theorem shlOp_fst {n} (a : BitVec n) (k : Nat) (f : Flags) : (shlOp a k f).1 = a <<< k := by
   unfold shlOp; split <;> simp_all
 @[simp] theorem shrOp_fst {n} (a : BitVec n) (k : Nat) (f : Flags) : (shrOp a k f).1 = a >>> k := by
